@@ -405,6 +405,14 @@ class Gen:
         self.emit("dropdir %s" % d)
         del self.dirs[d]
         self.closed.append(d)
+    def g_dropvol(self):
+        if not self.vols:
+            return
+        v = self.rng.choice(list(self.vols))
+        self.emit("dropvol %s" % v)      # impl Drop for Volume: close_volume with the result discarded
+        if not any(vv == v for (_, vv) in self.dirs.values()) and not any(f["vol"] == v for f in self.files.values()):
+            del self.vols[v]
+            self.closed.append(v)
     def g_chdir(self):
         d = self.any_dir()
         if d is None:
@@ -502,7 +510,7 @@ class Gen:
 
 DEFAULT_WEIGHTS = dict(openvol=1, openroot=3, opendir=3, closedir=2, closevol=1, open=8, write=10, read=8, seek=6, query=3, flush=3,
                        close=4, delete=3, mkdir=2, find=2, iter=3, label=1, hasopen=1, remount=1, io=2, bad=4,
-                       iterlfn=0, dropfile=0, dropdir=0, chdir=0, wquery=0)
+                       iterlfn=0, dropfile=0, dropdir=0, dropvol=0, chdir=0, wquery=0)
 
 def profile(**over):
     w = dict(DEFAULT_WEIGHTS)
